@@ -51,10 +51,11 @@ func (s *c09State) clone(ctx sdk.Context) *c09State {
 type c09Sys struct{}
 
 type c09Deposit struct {
-	valid bool
-	amt   int64
-	denom string
-	base  string
+	valid    bool
+	amt      int64
+	denom    string
+	base     string
+	hookFail bool // valid recipient, but the deposit carries an undecodable hook: minted, reclaimed, burnt, refunded
 }
 type c09Send struct{}
 type c09Withdraw struct {
@@ -92,10 +93,13 @@ func (c09Sys) Letters(s *c09State) []engine.Letter {
 		for _, amt := range []int64{1, 2} {
 			for _, den := range []string{c09L2x, c09L2y} {
 				for _, base := range []string{"uxx", "uzz"} {
-					ls = append(ls, engine.Letter{Name: fmt.Sprintf("Deposit(validRecipient=%v,%d%s,base=%s)", valid, amt, dn(den), base), Data: c09Deposit{valid, amt, den, base}})
+					ls = append(ls, engine.Letter{Name: fmt.Sprintf("Deposit(validRecipient=%v,%d%s,base=%s)", valid, amt, dn(den), base), Data: c09Deposit{valid, amt, den, base, false}})
 				}
 			}
 		}
+	}
+	for _, amt := range []int64{1, 2} {
+		ls = append(ls, engine.Letter{Name: fmt.Sprintf("Deposit(validRecipient=true,hook=failing,%dl2x,base=uxx)", amt), Data: c09Deposit{true, amt, c09L2x, "uxx", true}})
 	}
 	ls = append(ls, engine.Letter{Name: "Send(alice->bob,1l2x)", Data: c09Send{}})
 	for _, by := range c09Accts {
@@ -138,7 +142,11 @@ func (c09Sys) Step(s *c09State, l engine.Letter) (*c09State, string, *engine.Vio
 		if !d.valid {
 			to = "not-an-address"
 		}
-		msg := opchildtypes.NewMsgFinalizeTokenDeposit(world.Addr("executor").String(), "l1sender", to, sdk.NewInt64Coin(d.denom, d.amt), s.nextL1, 7, d.base, nil)
+		var data []byte
+		if d.hookFail {
+			data = []byte{0xde, 0xad}
+		}
+		msg := opchildtypes.NewMsgFinalizeTokenDeposit(world.Addr("executor").String(), "l1sender", to, sdk.NewInt64Coin(d.denom, d.amt), s.nextL1, 7, d.base, data)
 		res := s.w.Deliver(ctx, msg)
 		if !res.OK() {
 			return c, "error", viol("harness-expectation", "deposit at the expected sequence failed: %v", res.Err)
@@ -150,6 +158,16 @@ func (c09Sys) Step(s *c09State, l engine.Letter) (*c09State, string, *engine.Vio
 			first = d.base
 		}
 		wevs := world.EventsOfType(res.Events, "initiate_token_withdrawal")
+		if d.valid && d.hookFail {
+			if len(wevs) != 1 {
+				return c, "refunded", viol("refund-records-one-withdrawal", "%d withdrawal events for a deposit whose hook failed", len(wevs))
+			}
+			if v := c09CheckWithdrawEvent(wevs[0], to, "l1sender", d.denom, first, d.amt, s.nextL2); v != nil {
+				return c, "refunded", v
+			}
+			c.nextL2++
+			return c, "refunded-hook-failed", nil // no net mint: ledger unchanged (checked in every state)
+		}
 		if d.valid {
 			if len(wevs) != 0 {
 				return c, "credited", viol("harness-expectation", "valid recipient but refund event present")
@@ -256,10 +274,10 @@ func init() {
 				return res
 			}
 			res.Absorb("c09", rep)
-			res.Coverage["alphabet"] = "Deposit(next seq; recipient∈{valid,malformed}; amt∈{1,2}; denom∈{l2x,l2y}; baseDenom∈{uxx,uzz}); Send(alice→bob); Withdraw(by∈{alice,bob,stranger}; amt∈{1,balance,balance+1}; denom∈{l2x, native umin, unknown})"
+			res.Coverage["alphabet"] = "Deposit(next seq; recipient∈{valid,malformed}; amt∈{1,2}; denom∈{l2x,l2y}; baseDenom∈{uxx,uzz}) + deposits to a valid recipient with a failing hook (minted, reclaimed, burnt, refunded); Send(alice→bob); Withdraw(by∈{alice,bob,stranger}; amt∈{1,balance,balance+1}; denom∈{l2x, native umin, unknown})"
 			res.Coverage["oracle"] = "supply and all balances = ledger (credited − withdrawn) in every state; accepted withdrawal ⇒ bridged denom, amount ≤ balance, response sequence = shared gap-free counter, exactly one faithful event whose base denom is the first mapping; rejected ⇒ digest unchanged; BaseDenom/NextL2Sequence queries = model"
 			res.Assumptions = []string{"one bridge executor delivering at the expected sequence"}
-			for _, k := range []string{"Withdraw/accepted", "Withdraw/rejected", "Withdraw/rejected-non-l1-token", "Deposit/credited", "Deposit/refunded", "Deposit/credited-with-conflicting-base"} {
+			for _, k := range []string{"Withdraw/accepted", "Withdraw/rejected", "Withdraw/rejected-non-l1-token", "Deposit/credited", "Deposit/refunded", "Deposit/refunded-hook-failed", "Deposit/credited-with-conflicting-base"} {
 				res.Require(res.OutcomeCount("c09", k) > 0, "outcome %s never occurred", k)
 			}
 			res.Require(res.OutcomeCount("c09", "Withdraw/rejected-though-valid") == 0, "a funded withdrawal of a bridged denom was rejected")
